@@ -37,8 +37,15 @@ def upgrade_profile():
                      max_classes=3, plans=("max_time",), horizon=(8.0, 20.0), budget=600, load="heavy", max_c=2, stay=0.5, excluded=common.EXCL["C04"])
 
 
+def long_schedule_profile():
+    from .. import strategies as S
+    w = {"schedule": 1.0, "sched_preempt": 0.0, "priorities": 0.2, "batching": 0.2, "discipline": 0.2, "server_priority": 0.2}
+    return S.Profile(list(w), weights=w, required=("schedule",), numeric="grid", max_nodes=1, max_classes=2, plans=("max_time",), horizon=(600.0, 900.0),
+                     budget=12000, load="mixed", max_c=6, resumptions=(1, 3), node_kinds=("schedule",), excluded=common.EXCL["C04"])
+
+
 def subchecks(tier):
-    prof = common.full_profile("C04", horizon=(6.0, 18.0), plans=("max_time", "max_time", "max_time", "max_customers"), resumptions=(1, 2))
+    prof = common.full_profile("C04", horizon=(6.0, 18.0), plans=("max_time", "max_time", "max_time", "max_customers"), resumptions=(1, 4))
     prof.weights.update({"ps": 0.0, "inf": 0.1, "slotted": 0.05, "schedule": 0.45, "capacity": 0.5, "server_priority": 0.3})
     return [system_subcheck("lattice", prof, lambda spec: [Exclusivity(spec)], nontrivial, classes=classes,
                             n={"quick": 9600, "thorough": 50000}, rule="finite-server lattice; attachment monitor + utilisation audit"),
@@ -47,6 +54,10 @@ def subchecks(tier):
                             n={"quick": 3600, "thorough": 20000},
                             rule="class change while waiting that raises the priority and pre-empts with 'reroute' (often back to the same node), "
                                  "several customers waiting, schedules; same monitor"),
-            system_subcheck("sched_blocked", common.region_profile("C04"), lambda spec: [Exclusivity(spec)],
+            system_subcheck("long_schedule", long_schedule_profile(), lambda spec: [Exclusivity(spec)],
+                            lambda a, spec, res: a.get("ev_shift_change", 0) >= 300 and a.get("utilisation_checked", 0) >= 1,
+                            classes=lambda a, spec, res: classes(a, spec, res) + [k for k in ("utilisation_checked_after_several_stops",) if a.get(k)], n={"quick": 128, "thorough": 800},
+                            rule="one scheduled node run over hundreds of cycles (thousands of servers created and retired), several stops: the utilisation audit over a long history"),
+            system_subcheck("sched_blocked", common.region_profile("C04", resumptions=(2, 4)), lambda spec: [Exclusivity(spec)],
                             lambda a, spec, res: a.get("rec_interrupted_service", 0) >= 1 and a.get("blocked_records", 0) >= 1, classes=classes,
                             n={"quick": 4800, "thorough": 30000}, rule="pre-emptive schedules x blocking region (heavy load, grid times); same monitor")]
